@@ -551,14 +551,14 @@ def rule_swap_shape(fx, col):
                     'the value written is into_ptr(new)')
             col.add('SWAP-SHAPE', 'swap|returns what the RMW took out', _call_bbs(b, fp[0][1]['args'][0]) == {rmw[0].bb} and fp[0][1]['dest']['local'] == 0,
                     'the result is from_ptr(<value returned by the atomic swap>): the immediate predecessor in the cell\'s modification order')
-    for fn, rel in (('arc_swap::ArcSwapAny::into_inner', 'from_ptr'), ('<ArcSwapAny as std::ops::Drop>::drop', 'dec')):
+    for fn, rel in (('arc_swap::ArcSwapAny::into_inner', ('from_ptr',)), ('<ArcSwapAny as std::ops::Drop>::drop', ('dec', 'from_ptr'))):
         b = _body(fx, fn)
         if not col.anchor('SWAP-SHAPE', fn, b is not None):
             continue
         gm = [s for s in cx.summ.sites_by_body.get(b.key, ()) if s.cls == 'cell' and s.op == 'get_mut']
-        rl = [(bb, t) for bb, t in b.calls(include_cleanup=False) if U.callee_name(t) == rel and (t['callee'].get('trait') or '').endswith('ref_cnt::RefCnt')]
+        rl = [(bb, t) for bb, t in b.calls(include_cleanup=False) if U.callee_name(t) in rel and (t['callee'].get('trait') or '').endswith('ref_cnt::RefCnt')]
         ok = len(gm) == 1 and len(rl) == 1 and _call_bbs(b, rl[0][1]['args'][0]) == {gm[0].bb}
-        col.add('SWAP-SHAPE', '%s|releases the stored value' % fn, ok, '%s(*self.ptr.get_mut()) exactly once' % rel)
+        col.add('SWAP-SHAPE', '%s|releases the stored value' % fn, ok, '%s(*self.ptr.get_mut()) exactly once' % '/'.join(rel))
 
 
 def rule_guard_fields(fx, col):
